@@ -23,6 +23,14 @@ def cases(seed, tier):
         out.append({"group": "reassign", "seed": sub_seed(seed, "c02xs", i), "fwd": fwd[i % len(fwd)], "emode": ["none", "E", "EM"][(i // 6) % 3],
                     "steps": rng.choice([2, 3]), "chain": rng.random() < 0.6, "n": rng.choice([3, 6, 7]), "ncols": rng.choice([1, 2]),
                     "bck": rng.choice(["same", "bicgstab", "default_tight"]), "batch": rng.choice([(), (2,)]), "reassign_m": rng.random() < 0.5})
+    # a failing call (an operator product raises during forward or backward), caught; the caller's tensors updated IN PLACE; the same operator
+    # objects used again
+    na = 45 if tier == "quick" else 450
+    for i in range(na):
+        rng = random.Random(sub_seed(seed, "c02xa", i))
+        out.append({"group": "reassign", "kind": "abort_reuse", "seed": sub_seed(seed, "c02xas", i), "fwd": ["bicgstab", "custom_exactsolve", "cg"][i % 3],
+                    "emode": ["none", "E", "EM"][(i // 3) % 3], "n": rng.choice([3, 6, 7]), "ncols": rng.choice([1, 2]), "phase": rng.choice(["fwd", "bwd", "bwd", "bwd"]),
+                    "kfrac": rng.choice([0.0, rng.random(), rng.random(), 0.97, 1.0]), "batch": ()})
     return out
 
 
@@ -48,7 +56,125 @@ def _dense(d, U):
     return torch.diag_embed(d) + torch.matmul(U, U.transpose(-2, -1))
 
 
+class _Injected(Exception):
+    pass
+
+
+def run_abort(desc):
+    from xitorch.linalg import solve
+    obs = Obs(desc)
+    tg = torch.Generator().manual_seed(desc["seed"])
+    n, ncols, emode, fwd = desc["n"], desc["ncols"], desc["emode"], desc["fwd"]
+    Op0 = _mk_classes()
+    state = {"n": 0, "raise_at": None}
+
+    class Op(Op0):
+        def _mv(self, x):
+            state["n"] += 1
+            if state["raise_at"] is not None and state["n"] == state["raise_at"]:
+                raise _Injected("injected failure at operator product %d" % state["n"])
+            return Op0._mv(self, x)
+
+    def rn(*s, scale=1.0):
+        return torch.randn(*s, dtype=DT, generator=tg) * scale
+    d = (1.5 + torch.rand(n, dtype=DT, generator=tg)).requires_grad_()
+    U = rn(n, 2, scale=0.4).requires_grad_()
+    md = mU = None
+    if emode == "EM":
+        md = (1.0 + 0.5 * torch.rand(n, dtype=DT, generator=tg)).requires_grad_()
+        mU = rn(n, 1, scale=0.3).requires_grad_()
+    B = rn(n, ncols).requires_grad_()
+    E = (-0.2 - 0.5 * torch.rand(ncols, dtype=DT, generator=tg)).requires_grad_() if emode != "none" else None
+    fopts = dict(rtol=1e-11, atol=1e-13, max_niter=20 * n + 40) if fwd in ("cg", "bicgstab") else {}
+    bopts = dict(method="bicgstab", rtol=1e-11, atol=1e-13, max_niter=20 * n + 40)
+    op = Op(d, U)                        # the operators hold the caller's leaves themselves
+    mop = Op(md, mU) if md is not None else None
+    leaves = [t for t in (d, U, md, mU, B, E) if t is not None]
+    names = [nm for nm, t in zip(("A.d", "A.U", "M.d", "M.U", "B", "E"), (d, U, md, mU, B, E)) if t is not None]
+    C = rn(n, ncols)
+    mech = "abort:%s:%s:%s" % (fwd, emode, desc["phase"])
+
+    def full():
+        X = solve(op, B, E, mop, method=fwd, bck_options=dict(bopts), **fopts)
+        m1 = state["n"]
+        g = torch.autograd.grad((X * C).sum(), leaves, allow_unused=True)
+        return X, g, m1, state["n"]
+    with WarnLog() as wl:
+        try:
+            state["n"] = 0
+            _, _, m1, m2 = full()
+        except Exception as e:
+            obs.exc_violation("reassign:abort:clean_run:" + mech, e)
+            obs.nontrivial = True
+            return obs.result()
+        lo, hi = (0, m1) if desc["phase"] == "fwd" else (m1, m2)
+        if hi <= lo:
+            obs.skip("no operator product in the chosen phase")
+            return obs.result()
+        k = min(hi, lo + 1 + int(desc["kfrac"] * (hi - lo - 1e-9)))
+        state["n"], state["raise_at"] = 0, k
+        raised = False
+        try:
+            full()
+        except _Injected:
+            raised = True
+        except Exception as e:
+            raised = state["n"] >= k
+            obs.note(wrapped="%s: %s" % (type(e).__name__, str(e)[:100]))
+        state["raise_at"] = None
+        if not raised:
+            obs.skip("injected failure not reached")
+            return obs.result()
+        obs.count("abort_injected_" + ("fwd" if desc["phase"] == "fwd" else "bwd"))
+        # the caller updates its tensors in place (an optimiser step) and uses the same operator objects again
+        with torch.no_grad():
+            d.mul_(1.15)
+            U.add_(0.05)
+            if md is not None:
+                md.mul_(0.9)
+        try:
+            X, g, _, _ = full()
+        except Exception as e:
+            obs.exc_violation("reassign:abort:reuse:" + mech, e)
+            obs.nontrivial = True
+            return obs.result()
+    if wl.convergence:
+        obs.count("reassign_forward_warned")
+        return obs.result()
+    l2 = [t.detach().clone().requires_grad_() for t in leaves]
+    it = iter(l2)
+    d2, U2 = next(it), next(it)
+    md2, mU2 = (next(it), next(it)) if md is not None else (None, None)
+    B2 = next(it)
+    E2 = next(it) if E is not None else None
+    Ad = _dense(d2, U2)
+    if E2 is None:
+        S = Ad.unsqueeze(-3).expand(ncols, n, n)
+    else:
+        Md = _dense(md2, mU2) if md2 is not None else torch.eye(n, dtype=DT)
+        S = Ad.unsqueeze(-3) - E2.reshape(ncols, 1, 1) * Md.unsqueeze(-3)
+    Xr = torch.linalg.solve(S, B2.transpose(-2, -1).unsqueeze(-1)).squeeze(-1).transpose(-2, -1)
+    gr = torch.autograd.grad((Xr * C).sum(), l2, allow_unused=True)
+    err = float((X.detach() - Xr.detach()).abs().max())
+    obs.check(err <= 1e-7 * (1 + float(Xr.detach().abs().max())), "reassign:abort:value:" + mech,
+              "after a caught failure and an in-place update of the caller's tensors the solution differs from the dense one by %.3e" % err)
+    sc = max([1.0] + [float(r.abs().max()) for r in gr if r is not None])
+    for nm, gi, ri, t in zip(names, g, gr, leaves):
+        obs.check(gi is not None or ri is None or float(ri.abs().max()) == 0.0, "reassign:abort:nograd:%s:%s" % (nm.split(".")[0], mech),
+                  "after a caught failure, a fresh solve on the same operator gives no gradient to %s" % nm)
+        gi = torch.zeros_like(t) if gi is None else gi
+        ri = torch.zeros_like(t) if ri is None else ri
+        e_ = float((gi - ri).abs().max())
+        obs.check(e_ <= 1e-6 * sc, "reassign:abort:grad:%s:%s" % (nm.split(".")[0], mech),
+                  "after a caught failure and an in-place update, the gradient w.r.t. %s differs from the dense reference by %.3e (scale %.2e)" % (nm, e_, sc))
+    obs.count("abort_reuse_compared")
+    obs.nontrivial = True
+    return obs.result()
+
+
 def run_case(desc):
+    if desc.get("kind") == "abort_reuse":
+        return run_abort(desc)
     from xitorch.linalg import solve
     obs = Obs(desc)
     tg = torch.Generator().manual_seed(desc["seed"])
